@@ -630,7 +630,8 @@ func main() {
 	out := flag.String("out", "", "cases directory")
 	seed := flag.Uint64("seed", 1, "seed")
 	tier := flag.String("tier", "quick", "tier")
-	stage := flag.String("stage", "accounts", "accounts|paths")
+	stage := flag.String("stage", "accounts", "accounts|paths|e2e")
+	noCLI := flag.Bool("nocli", false, "e2e: do not build and drive the apko CLI")
 	_ = flag.String("replay", "", "unused: cases are regenerated from the seed")
 	flag.Parse()
 	var err error
@@ -639,6 +640,8 @@ func main() {
 		err = accountsStage(*out, *seed, *tier)
 	case "paths":
 		err = pathsStage(*out, *seed, *tier)
+	case "e2e":
+		err = e2eStage(*out, *seed, *tier, *noCLI)
 	default:
 		err = fmt.Errorf("unknown stage %q", *stage)
 	}
